@@ -301,6 +301,7 @@ impl Store {
             }
             rec.class(&format!("churn-{}+-stale-entries-from-the-start", (case.churn / 256) * 256));
         }
+        let churn_len = all_ops.len();
         all_ops.extend(case.ops.iter().cloned());
         for (k, op) in all_ops.iter().enumerate() {
             rec.eval();
@@ -314,15 +315,21 @@ impl Store {
                     }
                 }
             }
-            let before = m.clone();
+            // (the model's live part is small; its set of dead ids, which only grows, is not copied)
+            let before = (m.live.clone(), m.atts.clone());
             let n_before = (af.n_arguments(), af.n_attacks());
             apply(&mut af, &mut m, op, "C12").map_err(|mut f| {
                 f.message = format!("{} | op #{} {:?}", f.message, k, op);
                 f
             })?;
-            let unchanged = before.live == m.live && before.atts == m.atts;
+            let unchanged = before.0 == m.live && before.1 == m.atts;
             if unchanged && n_before != (af.n_arguments(), af.n_attacks()) {
                 return Err(Failure::new("C12/rejected-or-redundant-update-changed-counts", format!("op #{} {:?}", k, op)));
+            }
+            // during a churn prefix of tens of thousands of rounds the whole-state comparison (linear in the
+            // number of ids ever issued) runs every 2048th step and on its last 64 steps
+            if churn_len > 8_000 && k + 64 < churn_len && k % 2_048 != 0 {
+                continue;
             }
             compare(&af, &m, case.universe, "C12").map_err(|mut f| {
                 f.message = format!("{} | after op #{} {:?}", f.message, k, op);
@@ -421,6 +428,17 @@ impl Prop for Store {
         for (i, ops) in frontier.into_iter().enumerate() {
             out.push(StoreCase { universe: 2, string_labels: i % 3 == 0, coarse: i % 3 == 1, hub_prefix: 0, churn: 0, initial: vec![], ops });
         }
+        // one framework object that lives through 44 000 rounds of churn (more than 2^16 removed attacks and
+        // 2^15 argument ids), followed by a few ordinary operations
+        out.push(StoreCase {
+            universe: 6,
+            string_labels: false,
+            coarse: false,
+            hub_prefix: 0,
+            churn: 44_000,
+            initial: vec![],
+            ops: vec![StoreOp::NewArg(1), StoreOp::NewArg(2), StoreOp::NewAtt(1, 2), StoreOp::NewAtt(2, 1), StoreOp::NewAtt(0, 2), StoreOp::RemArg(1), StoreOp::NewArg(1), StoreOp::RemAtt(0, 2)],
+        });
         (out, format!("all {}-step histories over two labels (12 operations per step), every prefix compared", maxlen))
     }
     fn extra_phase(&self, tier: Tier, seed: u64, rec: &mut Rec) -> Result<(), (StoreCase, Failure)> {
